@@ -296,7 +296,8 @@ func (self *Compiler) compileMapBody(p *ir.Program, sp int, vt reflect.Type) {
 func (self *Compiler) compileMapBodyKey(p *ir.Program, vk reflect.Type) {
 	// followed as `encoding/json/emcode.go:resolveKeyName
 	if vk.Kind() == reflect.String {
-		self.compileString(p, vk)
+		/* an object key is always a JSON string, json.Number keys included */
+		p.Add(ir.OP_str)
 		return
 	}
 
@@ -340,7 +341,7 @@ func (self *Compiler) compileMapBodyTextKey(p *ir.Program, vk reflect.Type) {
 	case reflect.Float64:
 		p.Key(ir.OP_f64)
 	case reflect.String:
-		self.compileString(p, vk)
+		p.Add(ir.OP_str)
 	default:
 		panic(vars.Error_type(vk))
 	}
